@@ -294,12 +294,14 @@ func dependsOn(v ssa.Value, target func(ssa.Value) bool, seen map[ssa.Value]bool
 }
 
 func runC11(c *core.Ctx) core.Meta {
-	c.Load(driverPkg, cpPkg, "amd/emu", "amd/protocol")
+	c.Load(driverPkg, cpPkg, "amd/emu", "amd/protocol", "amd/samples/runner/timingconfig")
 	c.BuildSSA()
 	prov := core.NewProv(c)
 	pd := NewPkgInfo(c, driverPkg)
 	pc := NewPkgInfo(c, cpPkg)
 	pe := NewPkgInfo(c, "amd/emu")
+
+	checkCopySiblings(c, pd)
 
 	// ---------------- R11.1 overlap predicate ----------------
 	st1 := c.Rule("R11.1", "memRangeOverlap(s1,e1,s2,e2) equals s1<e2 && s2<e1 on every weak ordering of its four arguments with s1<e1 and s2<e2 (abstract interpretation of the comparison skeleton over the order domain)", 1)
